@@ -14,12 +14,33 @@ package revolut2
 //@ def asrtLE(d1 model.Directive, d2 model.Directive) bool := balKeyLE(dyn(d1, "*assertion.Assertion").Date, dyn(d1, "*assertion.Assertion").Balances[0].Commodity,
 //@     dyn(d2, "*assertion.Assertion").Date, dyn(d2, "*assertion.Assertion").Balances[0].Commodity)
 //
+// compareBalanceKeys: by date, then by commodity name (the order of commodity.Compare).
+//@ func compareBalanceKeys
+//@   requires k1.Commodity != nil && k2.Commodity != nil
+//@   modifies nothing
+//@   ensures [C06] [C13] @lex: result == (k1.Date < k2.Date ? 0 - 1 : (k1.Date > k2.Date ? 1 : comCmp(k1.Commodity, k2.Commodity)))
+//
+// balanceKeys: the keys of the collected balances, each one a key of the map; that compare.Sort (sort.Slice)
+// leaves them ordered by the comparator is the trusted contract of the standard library.
+//@ func (*parser).balanceKeys
+//@   requires p != nil
+//@   modifies nothing
+//@   ensures fresh(result)
+//@   ensures [trusted] @sorted: forall i int, j int :: {result[i], result[j]} 0 <= i && i < j && j < len(result) ==> balKeyLE(result[i].Date, result[i].Commodity, result[j].Date, result[j].Commodity)
+//@   ensures @keys: forall i int :: {result[i]} 0 <= i && i < len(result) ==> (result[i] in p.balance)
+//
 //@ func (*parser).addBalances
 //@   requires p != nil && wfBuilder(p.builder) && (forall k amounts.Key :: {key(p.balance, k)} (k in p.balance) ==> k.Commodity != nil)
 //@   modifies *
-//@   callback Add=0
-//@   ensures [C06] [C13] @each: forall i int :: {targ("Add", 0, i)} old(tlen()) <= i && i < tlen() ==> asrtOK(targ("Add", 0, i))
-//@   ensures [C06] [C13] @ordered: forall i int :: {targ("Add", 0, i)} old(tlen()) <= i && i + 1 < tlen() ==> asrtLE(targ("Add", 0, i), targ("Add", 0, i + 1))
-//@   loop 1 invariant wfBuilder(p.builder) && tlen() >= entry(tlen())
+//@   callback balanceKeys=0
+//@   callback Add=1
+//@   ensures [C06] [C13] @count: tlen() == old(tlen()) + 1 + len(tres("balanceKeys", old(tlen())))
+//@   ensures [C06] [C13] @each: forall i int :: {targ("Add", 0, i)} old(tlen()) + 1 <= i && i < tlen() ==> asrtOK(targ("Add", 0, i))
+//@   ensures [C06] [C13] @ordered: forall i int :: {targ("Add", 0, i)} old(tlen()) + 1 <= i && i + 1 < tlen() ==> asrtLE(targ("Add", 0, i), targ("Add", 0, i + 1))
+//@   loop 1 invariant wfBuilder(p.builder) && tlen() == entry(tlen()) + $i && 0 <= $i && $i <= len($range) && $range == tres("balanceKeys", entry(tlen()) - 1)
+//@   loop 1 invariant forall k int :: {$range[k]} 0 <= k && k < len($range) ==> $range[k].Commodity != nil
+//@   loop 1 invariant forall i int, j int :: {$range[i], $range[j]} 0 <= i && i < j && j < len($range) ==> balKeyLE($range[i].Date, $range[i].Commodity, $range[j].Date, $range[j].Commodity)
 //@   loop 1 invariant [C06] [C13] @each: forall i int :: {targ("Add", 0, i)} entry(tlen()) <= i && i < tlen() ==> asrtOK(targ("Add", 0, i))
-//@   loop 1 invariant [C06] [C13] @ordered: forall i int :: {targ("Add", 0, i)} entry(tlen()) <= i && i + 1 < tlen() ==> asrtLE(targ("Add", 0, i), targ("Add", 0, i + 1))
+//@   loop 1 invariant [C06] [C13] @date: forall i int :: {targ("Add", 0, i)} entry(tlen()) <= i && i < tlen() ==> dyn(targ("Add", 0, i), "*assertion.Assertion").Date == $range[i - entry(tlen())].Date
+//@   loop 1 invariant [C06] [C13] @com: forall i int :: {targ("Add", 0, i)} entry(tlen()) <= i && i < tlen() ==> dyn(targ("Add", 0, i), "*assertion.Assertion").Balances[0].Commodity == $range[i - entry(tlen())].Commodity
+//@   loop 1 invariant forall i int :: {targ("Add", 0, i)} entry(tlen()) <= i && i < tlen() ==> live(dyn(targ("Add", 0, i), "*assertion.Assertion")) && live(dyn(targ("Add", 0, i), "*assertion.Assertion").Balances)
